@@ -599,6 +599,12 @@ impl ProxySession for HttpSession {
         self.state.cancel_timeouts();
         // defer backend closing to the state
         self.state.close(self.proxy.clone(), &mut self.metrics);
+        // A WebSocket pipe owns the backend connection it took out of the mux
+        // at upgrade time: give it back (after `state.close`, which still
+        // needs the handle for the request count).
+        if let HttpStateMachine::WebSocket(pipe) = &mut self.state {
+            pipe.release_backend_connection();
+        }
 
         let front_socket = self.state.front_socket();
         // invariant: write-only shutdown — Shutdown::Both on a TLS frontend
@@ -1306,6 +1312,33 @@ impl HttpListener {
             validate_sozu_id_header(hdr)?;
         }
 
+        // Everything that can fail is computed first, on copies: a patch that
+        // is answered with an error must leave the live listener untouched.
+        // HTTP answers: merge legacy `http_answers` and the new `answers` map
+        // on top of the existing config and compile the listener-level
+        // template registry.
+        let answers_changed = patch.http_answers.is_some() || !patch.answers.is_empty();
+        let mut staged_answers = None;
+        if answers_changed {
+            let mut http_answers = self.config.http_answers.clone();
+            let mut answers = self.config.answers.clone();
+            if let Some(ref new_answers) = patch.http_answers {
+                crate::sozu_command::state::merge_custom_http_answers(&mut http_answers, new_answers);
+            }
+            for (code, body) in &patch.answers {
+                if !body.is_empty() {
+                    answers.insert(code.clone(), body.clone());
+                }
+            }
+            let mut answers_map = answers.clone();
+            if let Some(ref legacy) = http_answers {
+                crate::protocol::http::answers::merge_legacy_into_map(&mut answers_map, legacy);
+            }
+            let compiled = HttpAnswers::new(&answers_map)
+                .map_err(|(name, error)| ListenerError::TemplateParse(name, error))?;
+            staged_answers = Some((http_answers, answers, compiled));
+        }
+
         if let Some(v) = patch.public_address {
             self.config.public_address = Some(v);
         }
@@ -1393,32 +1426,12 @@ impl HttpListener {
             self.config.h2_max_window_update_stream0_per_window = Some(v);
         }
 
-        // HTTP answers: merge legacy `http_answers` and the new `answers`
-        // map on top of the existing config, then rebuild the listener-level
-        // template registry. Per-cluster overrides in
-        // `HttpAnswers::cluster_answers` are preserved across the rebuild.
-        let answers_changed = patch.http_answers.is_some() || !patch.answers.is_empty();
-        if answers_changed {
-            if let Some(ref new_answers) = patch.http_answers {
-                crate::sozu_command::state::merge_custom_http_answers(
-                    &mut self.config.http_answers,
-                    new_answers,
-                );
-            }
-            for (code, body) in &patch.answers {
-                if !body.is_empty() {
-                    self.config.answers.insert(code.clone(), body.clone());
-                }
-            }
-
-            let mut answers_map = self.config.answers.clone();
-            if let Some(ref legacy) = self.config.http_answers {
-                crate::protocol::http::answers::merge_legacy_into_map(&mut answers_map, legacy);
-            }
-            // Rebuild the listener-level templates and migrate the existing
-            // per-cluster overrides over to the new `HttpAnswers`.
-            let mut new_answers = HttpAnswers::new(&answers_map)
-                .map_err(|(name, error)| ListenerError::TemplateParse(name, error))?;
+        // HTTP answers: commit what was staged (and compiled) above. Per-cluster
+        // overrides in `HttpAnswers::cluster_answers` are preserved across the
+        // rebuild.
+        if let Some((http_answers, answers, mut new_answers)) = staged_answers {
+            self.config.http_answers = http_answers;
+            self.config.answers = answers;
             let preserved = std::mem::take(&mut self.answers.borrow_mut().cluster_answers);
             new_answers.cluster_answers = preserved;
             *self.answers.borrow_mut() = new_answers;
